@@ -680,8 +680,13 @@ func (r *c12Runner) exec(i int, op *c12Op) (ob c12Obs, cont bool) {
 		var payload []byte
 		opcode := byte(1)
 		if op.K == "recv" {
+			if r.last.Hello {
+				// "the session id the remote gave": what the client holds now (a later
+				// hello-shaped message is only forwarded and does not change it)
+				r.ctx.sidOn = r.last.RemoteSid
+			}
 			payload = op.M.doc(&r.ctx)
-			if op.M.Hel != nil && op.M.Tag == "hello" {
+			if op.M.Hel != nil && op.M.Tag == "hello" && !r.last.Hello {
 				r.ctx.sidOn = op.M.Hel.Sid
 			}
 		} else {
@@ -908,6 +913,7 @@ func (e *c12Env) runCase(c *c12Case, progress func(i int), emit func(i int, ob *
 		room = "fed-room@remote"
 	}
 	r.ctx.remoteRoom = remoteRoom
+	r.ctx.localCloud = getCloudUrl(sess.BackendUrl())
 	e.caseSeq++
 	prefix := fmt.Sprintf("/c%d-%d/", c.Id, e.caseSeq)
 	r.path = prefix + "spreed"
